@@ -22,7 +22,7 @@ ASSERT_ARGUMENTS = {
         "every other declarator comes from _parse_declarator/_parse_id_declarator (never None) or is a TypeDecl placeholder",
     ("CParser._parse_abstract_declarator_opt", "$(self._parse_pointer()) is not None"):
         "_parse_pointer returns None only when it accepted no '*'; it is called here under look-ahead TIMES (checked automatically: entry fact of _parse_pointer)",
-    ("CParser._parse_direct_abstract_declarator", "$(c_ast.FuncDecl(args=$, type=c_ast.TypeDecl(declname=None, quals=None, align=None, type=None), coord=self._tok_coord($)) | self._parse_abstract_array_base() | self._parse_abstract_declarator_opt()) is not None"):
+    ("CParser._parse_direct_abstract_declarator", "$(c_ast.FuncDecl(args=$, type=c_ast.TypeDecl(declname=None, quals=None, align=None, type=None), coord=self._tok_coord(tok=$)) | self._parse_abstract_array_base() | self._parse_abstract_declarator_opt()) is not None"):
         "_parse_abstract_declarator_opt returns None only when the next token is none of * ( [; the branch is entered with a token that is not ')' "
         "either, so the following _expect('RPAREN') has already raised ParseError before the assert is reached",
     ("CLexer._match_token", "$($.lastgroup | 'TYPEID' | _keyword_map.get($, 'ID') | item1 of $) is not None"):
@@ -53,7 +53,7 @@ def _prev_stmt_is(call_text):
 
 # recorded assert arguments that rest on a structural fact: the fact is re-checked on every run
 ASSERT_PRECONDITIONS = {
-    ("CParser._parse_direct_abstract_declarator", "$(c_ast.FuncDecl(args=$, type=c_ast.TypeDecl(declname=None, quals=None, align=None, type=None), coord=self._tok_coord($)) | self._parse_abstract_array_base() | self._parse_abstract_declarator_opt()) is not None"):
+    ("CParser._parse_direct_abstract_declarator", "$(c_ast.FuncDecl(args=$, type=c_ast.TypeDecl(declname=None, quals=None, align=None, type=None), coord=self._tok_coord(tok=$)) | self._parse_abstract_array_base() | self._parse_abstract_declarator_opt()) is not None"):
         (_prev_stmt_is("self._expect('RPAREN')"), "the statement just before the assert is self._expect('RPAREN')"),
 }
 # constant-index subscripts / other partial operations, keyed by (function, alpha-normalised expression)
@@ -141,6 +141,8 @@ class Canon:
             elif isinstance(n, ast.ExceptHandler) and n.name:
                 self.defs.setdefault(n.name, []).append(("except", None))
         self._memo = {}
+        cls = getattr(fn, "_parent", None)
+        self.cls_methods = {m.name: m for m in cls.body if isinstance(m, ast.FunctionDef)} if isinstance(cls, ast.ClassDef) else {}
 
     def _bind(self, t, value, tag):
         if isinstance(t, ast.Name):
@@ -174,6 +176,15 @@ class Canon:
         calls = []
         try:
             for n in ast.walk(node):
+                if isinstance(n, ast.Call) and isinstance(n.func, ast.Attribute) and isinstance(n.func.value, ast.Name) and n.func.value.id == "self" and (n.args or n.keywords) and self.cls_methods.get(n.func.attr) is not None:
+                    # calls of the class's own helpers read the same whether their arguments are passed by position or by keyword
+                    m = self.cls_methods[n.func.attr]
+                    names = [a.arg for a in m.args.args[1:]]
+                    if len(n.args) <= len(names) and not any(isinstance(a, ast.Starred) for a in n.args) and all(k.arg is not None for k in n.keywords) and n.args:
+                        calls.append((n, n.args, n.keywords))
+                        kws = [ast.keyword(arg=p, value=a) for p, a in zip(names, n.args)] + n.keywords
+                        n.keywords = kws
+                        n.args = []
                 if isinstance(n, ast.Call) and isinstance(n.func, ast.Attribute) and isinstance(n.func.value, ast.Name) and n.func.value.id == "c_ast":
                     # node constructors read the same whether their fields are passed by position or by keyword
                     names = _ctor_params().get(n.func.attr)
@@ -661,6 +672,46 @@ def _is_partial_subscript(n, fn):
     return False
 
 
+def _min_tuple_len(cls, mname, stack):
+    """smallest length of the tuple that method `mname` returns, when every return is a tuple display or the result of a method that has
+    this property; None otherwise"""
+    if mname in stack:
+        return None
+    m = next((x for x in cls.body if isinstance(x, ast.FunctionDef) and x.name == mname), None)
+    if m is None:
+        return None
+    binds = {}
+    for x in ast.walk(m):
+        if isinstance(x, ast.Assign) and len(x.targets) == 1 and isinstance(x.targets[0], ast.Name):
+            binds.setdefault(x.targets[0].id, []).append(x.value)
+        elif isinstance(x, ast.Name) and isinstance(x.ctx, ast.Store):
+            binds.setdefault(x.id, [])
+
+    def length(e, depth=0):
+        if isinstance(e, ast.Tuple) and not any(isinstance(y, ast.Starred) for y in e.elts):
+            return len(e.elts)
+        if isinstance(e, ast.Call) and isinstance(e.func, ast.Attribute) and isinstance(e.func.value, ast.Name) and e.func.value.id == m.args.args[0].arg:
+            return _min_tuple_len(cls, e.func.attr, stack + (mname,))
+        if isinstance(e, ast.Name) and depth < 3:
+            vals = binds.get(e.id)
+            stores = sum(1 for y in ast.walk(m) if isinstance(y, ast.Name) and y.id == e.id and isinstance(y.ctx, ast.Store))
+            if vals and len(vals) == stores:
+                ls = [length(v, depth + 1) for v in vals]
+                return None if any(l is None for l in ls) else min(ls)
+        return None
+    rets = [x for x in ast.walk(m) if isinstance(x, ast.Return) and S.enclosing_function(x) is m]
+    if not rets or any(r.value is None for r in rets):
+        return None
+    ls = [length(r.value) for r in rets]
+    if any(l is None for l in ls):
+        return None
+    # falling off the end returns None: the last statement must not fall through
+    last = m.body[-1]
+    if not isinstance(last, (ast.Return, ast.Raise)):
+        return None
+    return min(ls)
+
+
 def _auto_guard(n, fn):
     """Syntactic guards: table lookups dominated by a membership test on the same table; annotations; spec dictionaries."""
     # type annotations (Optional[...], List[...]) are not executed subscripts of data
@@ -690,6 +741,18 @@ def _auto_guard(n, fn):
                         if (isinstance(tt.ops[0], ast.Eq) and k >= 1) or (isinstance(tt.ops[0], ast.Gt) and k >= 0) or (isinstance(tt.ops[0], ast.GtE) and k >= 1):
                             return True
             cur = par
+    # self.m(...)[k] where every return of m hands back a tuple display of more than k elements (directly, or the result of such a method)
+    if isinstance(n.value, ast.Call) and isinstance(n.value.func, ast.Attribute) and isinstance(n.value.func.value, ast.Name) and n.value.func.value.id == "self":
+        k = n.slice.value if isinstance(n.slice, ast.Constant) else (-n.slice.operand.value if isinstance(n.slice, ast.UnaryOp) and isinstance(n.slice.op, ast.USub) and isinstance(n.slice.operand, ast.Constant) else None)
+        if isinstance(k, int) and not isinstance(k, bool):
+            need = k + 1 if k >= 0 else -k
+            cls = fn
+            while cls is not None and not isinstance(cls, ast.ClassDef):
+                cls = getattr(cls, "_parent", None)
+            if cls is not None:
+                ln = _min_tuple_len(cls, n.value.func.attr, ())
+                if ln is not None and ln >= need:
+                    return True
     if isinstance(n.value, ast.Name) and n.value.id.startswith("_") and isinstance(n.slice, (ast.Attribute, ast.Name)):
         # TABLE[x] after `x not in TABLE: break` / `x in TABLE`
         tbl, idx = n.value.id, S.unparse(n.slice)
